@@ -15,16 +15,15 @@ pub const fn u8_lower_upper(n: u8) -> (u8, u8) { (n & 15, n >> 4) }
 /// Run a closure `retry_count+1` times while it returns [PacketReceive] or
 /// [PacketSend] errors, returning the first success, other Error, or after
 /// `retry_count+1` tries the last [PacketReceive] or [PacketSend] error.
-pub fn retry_on_timeout<T>(mut retry_count: usize, mut fetch: impl FnMut() -> GDResult<T>) -> GDResult<T> {
+pub fn retry_on_timeout<T>(retry_count: usize, mut fetch: impl FnMut() -> GDResult<T>) -> GDResult<T> {
     let mut last_err = PacketReceive.context("Retry count was 0");
-    retry_count += 1;
-    while retry_count > 0 {
+    // retry_count + 1 tries, without overflowing when retry_count is usize::MAX
+    for _ in 0 ..= retry_count {
         last_err = match fetch() {
             Ok(r) => return Ok(r),
             Err(e) if e.kind == PacketReceive || e.kind == PacketSend => e,
             Err(e) => return Err(e),
         };
-        retry_count -= 1;
     }
     Err(last_err)
 }
